@@ -122,6 +122,8 @@ def run_matrix(rep, prop, tier, source, binprefix, extra_flags=()):
         ran += 1
     if 0 == ran:
         rep.harness_errors.append('no configuration could be built')
+    if any('giving up' in n for n in rep.notes):
+        rep.exhaustive = False
     m = rep.stats.get('_model', {})
     rep.extra['states'] = int(m.get('states', 0))
     rep.extra['transitions'] = int(m.get('transitions', 0))
